@@ -10,8 +10,8 @@ from hypothesis import strategies as st
 
 from . import types as G
 
-TOP_NAMES = ["x", "y", "items", "g.a", "g.b", "g.h.c", "k.null", "n1"]
-SUB_NAMES = ["o1", "o2", "s.p"]
+TOP_NAMES = ["x", "y", "items", "g.a", "g.b", "g.h.c", "k.null", "n1", "g.items", "g.h.keys"]
+SUB_NAMES = ["o1", "o2", "s.p", "values", "s.get"]
 
 
 def build(recipe, **parser_kw):
